@@ -387,6 +387,9 @@ func c03Body(w *c03World, startAt int64, ap, pp [2]string, windowed bool) {
 		ev.deliver("head", &apiv1.HeadEvent{Slot: s, Block: root(byte(s)), PreviousDutyDependentRoot: root(prev), CurrentDutyDependentRoot: root(cur)})
 	}
 	mc.Sleep(int64(500 * time.Millisecond))
+	// the slot of the baseline event (its handling takes the fast-track grace, which may end in the next slot or epoch:
+	// the controller compares later events with the epoch of this one)
+	baseSlotOff := int(w.slotAt(mc.Now())) - c03Epoch0*c03SPE
 	deliver("baseline", 0x10, 0x20)
 	// The thorough tier's schedule bound (one deviation) applies to the start-up above and to the instants at
 	// which a head event is handled; in between the default schedule is followed (three epochs of controller
@@ -400,7 +403,7 @@ func c03Body(w *c03World, startAt int64, ap, pp [2]string, windowed bool) {
 	if windowed {
 		nEvents = 1
 	}
-	lastSlotOff := int(w.slotAt(mc.Now())) - c03Epoch0*c03SPE
+	lastSlotOff := baseSlotOff
 	for i := 0; i < nEvents; i++ {
 		// the event's slot: the current slot or one of the next three; seconds into the slot: before or after the attestation time
 		var slotOff int
